@@ -531,6 +531,9 @@ func c02Type5(c *h.Ctx, sizes []int, flipAll bool) {
 		}
 		det := func(k string, v any) map[string]any { return map[string]any{"type": 5, "batch": n, k: v} }
 		c02Judge(c, "type5:honest", fin(append([]byte{}, resp...)), valid, n, false, det("case", "honest"))
+		if o := fin(append([]byte{}, resp...)); !o.pan && o.err == nil {
+			tokensIndependent(c, o.toks, det("case", "honest tokens, the spare capacity behind each written"))
+		}
 		// decompose: varint || elements || proof
 		l, off := quicwire.ConsumeVarint(resp)
 		elems := resp[off : off+int(l)]
@@ -867,6 +870,7 @@ func runC02(c0 *h.Ctx) {
 			}
 			c02Type5(c, sizes, c.Thorough())
 			c02SuppliedBlinds(c)
+			c02ForgedAfterFailedDecode(c)
 		case 4:
 			// an issuer key of another size than 2048 bits: finalization must fail or return a verifying token
 			k3, err := rsa.GenerateKey(crand.Reader, 3072)
